@@ -442,7 +442,10 @@ def replay(v):
     from ..acc import Acc
     c = v["case"]
     a = Acc(ID, 0, 1, 600)
-    prog = c["prog"]
+    prog = c.get("prog")
+    if c.get("fam") == "twins":
+        twins_case(a, c)
+        return [x for x in a.violations if x["case"].get("dag") == c.get("dag")] if c.get("dag") else a.violations, None
     if c.get("fam") == "reconf":
         reconf_case(a, c)
         return a.violations, None
